@@ -173,7 +173,13 @@ func SolveAll(dir string, reps []*FuncReport, timeoutS int, all bool) {
 				qr, ok := cache[key]
 				mu.Unlock()
 				if !ok {
-					qr = Solve(dir, o.Name, j.rep.Header, o.Assume, o.Goal, timeoutS, all && o.Kind != "vacuity")
+					t := timeoutS
+					if o.Kind == "vacuity" && t > 3 {
+						// satisfiability of quantified assumptions is rarely decided; an unsat answer (the only
+						// one that matters: vacuous contract) comes quickly if at all
+						t = 3
+					}
+					qr = Solve(dir, o.Name, j.rep.Header, o.Assume, o.Goal, t, all && o.Kind != "vacuity")
 					mu.Lock()
 					cache[key] = qr
 					mu.Unlock()
